@@ -261,6 +261,11 @@ class MiniEval:
     def ev_Name(self, n):
         if n.id in self.env:
             return self.env[n.id]
+        g_ = self.env.get("__globals__")
+        if g_ is not None and n.id in g_:
+            # a module-level name bound after the enclosing function ran (a nested function sees the module's names live, not as
+            # they were when it was created)
+            return g_[n.id]
         if n.id in _SAFE_BUILTINS and _SAFE_BUILTINS[n.id] is not None:
             return _SAFE_BUILTINS[n.id]
         if n.id in ("True", "False", "None"):
